@@ -557,6 +557,12 @@ mod handlers {
         file_name: ExternalFileName,
         query: MoveFileQuery,
     ) -> Result<()> {
+        // A file is named by the digest of its content: moving it
+        // to another folder or secret must not give it another name
+        if query.name != file_name {
+            return Err(Error::Status(StatusCode::BAD_REQUEST));
+        }
+
         let account = {
             let backend = backend.read().await;
             let accounts = backend.accounts();
